@@ -46,6 +46,7 @@ type Ctx struct {
 	summaries  map[*ssa.Function][]resultSummary
 	impls      map[*types.Func][]*ssa.Function
 	bitsMasked int
+	h1         *h1Index // ip_h1.go: calls made through function values kept in local tables
 }
 
 type LoadStats struct {
